@@ -80,7 +80,16 @@ def stats(raw):
     return d
 
 
+# directed reproductions of the listed findings (run only while the finding is listed in known_findings.txt)
+FINDING_RUNS = {
+    'shared-priority-thread-not-joinable': [[877833741, 0, 'errors', 8, '--pika:threads=8', '--pika:scheduler=shared-priority']],
+    # std::terminate: the directed run dies, which is the finding (the alternative signature is valid for this run only)
+    'yield-noexcept-interruption': [([1, 0, 'yieldintr', 4, '--pika:threads=2'], "crash rc=N"), ([2, 0, 'yieldintr', 4, '--pika:threads=2'], "crash rc=N")],
+    'interrupted-join-stale-callback': [[1, 0, 'joinintr', 1, '--pika:threads=3'], [2, 0, 'joinintr', 1, '--pika:threads=3']],
+}
+
 e2check.run(dict(
+    finding_runs=FINDING_RUNS,
     prop='C13', model='join', harness='e2/join.cpp', bin='e2_join', props=['C13', 'C13m'],
     runs=runs, extra_runs=extra_runs, nontrivial=nontrivial, stats=stats, par=3, timeout_s=900,
     rule='generated scenarios on the live runtime (thread bodies: immediate, yielding, long running, blocking on a semaphore, spawning and joining further threads; joiners on other tasks after random delays; double join, join after detach, self join; user exit callbacks registered through add_thread_exit_callback while the target exits; two concurrent joiners of one handle; handle operations: move construction / move assignment / swap / vectors of handles / re-binding a joined handle / jthread moves / a handle moved away while another task is suspended in join on it, every destructor logged; interrupt() against bodies with enabled/disabled interruption sections and a bystander; jthread destructors at random times) for every scheduling policy and several worker counts, with PRNG timing perturbation at the instrumented sites (join window, exit-callback window); non-trivial = at least one joiner was suspended and woken by an exit callback; distinct = distinct argv',
